@@ -13,7 +13,8 @@ import RepeVerif.Gen.Wire
 > otherwise, for every query length, and a body of the wrong element type or format is rejected rather
 > than reinterpreted.
 
-Elements are opaque byte blocks (`List Bytes`, every block of the element width: `Vec t w xs`), so
+Elements are opaque byte blocks (`List Bytes`; `Vec t w xs`: a `BeveTypedSlice` element type, every block
+`w` bytes, fewer than 2^62 elements — the capacity of BEVE's SIZE — and a payload that fits `usize`), so
 "bit-for-bit" is equality of blocks and NaN payloads, infinities and extreme integers are just blocks.
 `Gen.numericFacts` are re-extracted from `/repo` on every run (`extract/numeric.py`).
 
@@ -54,6 +55,11 @@ theorem size_62_bits_sharp : readSize (writeSize (2^62)) = .ok (0, []) := by dec
 
 example : readSize (writeSize 16384 ++ [7]) = .ok (16384, [7]) := by decide
 
+/-- Both sides of every width boundary of the codec (2^6, 2^14, 2^30) and the largest count. -/
+example : ([63, 64, 16383, 16384, 2^30 - 1, 2^30, 2^62 - 1].map fun n =>
+      ((writeSize n).length, readSize (writeSize n) == .ok (n, []))) =
+    [(1, true), (2, true), (2, true), (4, true), (4, true), (8, true), (8, true)] := by decide
+
 /-! ### regular and complex arrays -/
 
 theorem typed_roundtrip {t : ElemTy} {xs : List Bytes} (v : Vec t t.width xs) (rest : Bytes) :
@@ -74,7 +80,7 @@ theorem complex_size_closed_form {t : ElemTy} {xs : List Bytes} (hb : Blocks (2 
 
 /-- Non-vacuity: three f32 elements — a signalling NaN with payload, -inf, the largest finite. -/
 example : Vec ⟨0, 2⟩ 4 [[0x01, 0x00, 0x80, 0x7f], [0x00, 0x00, 0x80, 0xff], [0xff, 0xff, 0x7f, 0x7f]] :=
-  ⟨by decide, by decide, by decide⟩
+  ⟨by decide, by decide, by decide, by decide⟩
 
 example : readTyped ⟨0, 2⟩ (encodeTyped ⟨0, 2⟩ [[0x01, 0x00, 0x80, 0x7f], [0x00, 0x00, 0x80, 0xff]]) =
     .ok [[0x01, 0x00, 0x80, 0x7f], [0x00, 0x00, 0x80, 0xff]] := by decide
@@ -173,7 +179,7 @@ example : decodeTypedSlice { F with emptyGeneric := true } BEVE ⟨0, 3⟩ (enco
 
 /-- Non-vacuity (complex): two `Complex<i16>` elements, blocks of width 4. -/
 example : Vec ⟨1, 1⟩ (2 * (ElemTy.mk 1 1).width) [[0x00, 0x80, 0xff, 0x7f], [1, 0, 0xff, 0xff]] :=
-  ⟨by decide, by decide, by decide⟩
+  ⟨by decide, by decide, by decide, by decide⟩
 
 /-! ### aligned form -/
 
@@ -302,7 +308,7 @@ theorem wrong_type_rejected {t t' : ElemTy} (hne : t ≠ t') {xs : List Bytes} (
   constructor
   · intro v
     have h1 := readTypedRaw_encode (t := t) v.valid xs.length xs.flatten []
-      (v.len_lt t'.width_pos) v.blocks.flatten_length (by have := v.small; omega)
+      (v.len_lt t'.width_pos) v.blocks.flatten_length v.bytes
     simp only [List.append_nil, hne, if_false] at h1
     have hraw : bulkReadTypedRaw F t (bodyTypedSlice t' xs) = .error .mismatch := by
       unfold bulkReadTypedRaw bodyTypedSlice
@@ -322,7 +328,7 @@ theorem wrong_type_rejected {t t' : ElemTy} (hne : t ≠ t') {xs : List Bytes} (
     · simp [sliceRefHandler, hs, decodeTypedSliceRefBody, hma, ha1, ha2, Except.map]
   · intro v
     have h1 := readComplexRaw_encode (t := t) v.valid xs.length xs.flatten []
-      (v.len_lt (by have := t'.width_pos; omega)) v.blocks.flatten_length (by have := v.small; omega)
+      (v.len_lt (by have := t'.width_pos; omega)) v.blocks.flatten_length v.bytes
     simp only [List.append_nil, hne, if_false] at h1
     have hraw : bulkReadComplexRaw F t (bodyComplexSlice t' xs) = .error .mismatch := by
       unfold bulkReadComplexRaw bodyComplexSlice
